@@ -216,7 +216,9 @@ TIERS = {
     'micro': dict(nrandom=96, nops=300, depth=0, chk=1, tail=0.0),
     'mini': dict(nrandom=320, nops=300, depth=0, chk=1, tail=0.0),
     'quick': dict(nrandom=1500, nops=300, depth=0, chk=1, tail=0.0),
-    'thorough': dict(nrandom=10000, nops=600, depth=0, chk=10, tail=0.0),
+    # (the first plan, 10000 x 600 with the comparison only every 10th operation, named its findings after the LAST mutation
+    #  before the comparison, not the one that caused them: 15 untriageable keys.  Every operation is compared, as in quick.)
+    'thorough': dict(nrandom=6000, nops=300, depth=0, chk=1, tail=0.0),
 }
 
 ASSUMPTIONS = [
